@@ -26,8 +26,10 @@ def match(entry, signature, labels):
     witness labels are a subset of the case's labels."""
     if not is_open(entry):
         return False
-    pat = entry["signature"]
-    if not (pat == signature or fnmatch.fnmatchcase(signature, pat)):
+    pats = entry["signature"]
+    if isinstance(pats, str):
+        pats = [pats]
+    if not any(pat == signature or fnmatch.fnmatchcase(signature, pat) for pat in pats):
         return False
     need = entry.get("witness_labels") or []
     have = set(labels)
